@@ -697,6 +697,17 @@ impl super::DiskFS for Disk {
                     dir.set_entry(ptr,&fx);
                 }
             }
+            // the password entry goes with the file: left behind it would hold its directory slot for good
+            let (user,name_string) = split_user_filename(xname)?;
+            let (name,typ) = string_to_file_name(&name_string);
+            for i in 0..dir.num_entries() {
+                if let Some(mut px) = dir.get_entry::<Password>(&Ptr::ExtentEntry(i)) {
+                    if px.user==user+16 && px.name==name && px.typ==typ {
+                        px.user = DELETED;
+                        dir.set_entry::<Password>(&Ptr::ExtentEntry(i), &px);
+                    }
+                }
+            }
             self.save_directory(&dir)?;
             return Ok(());
         } else {
